@@ -181,6 +181,11 @@ fn record(i: &Inst) -> Value {
     }
     back.set_memory(i.mbase, i.mem.clone(), MemoryPermissions::READ | MemoryPermissions::WRITE);
 
+    // bad64's reading of the word: information for triage only, the specification never looks at it
+    if let Ok(ins) = bad64::decode(i.word, i.addr) {
+        ev["dis"] = json!({"op": format!("{:?}", ins.op()), "text": format!("{}", ins)});
+    }
+
     // ---- lift
     let big = i.big;
     let addr = i.addr;
@@ -355,7 +360,7 @@ fn with_q(rng: &mut Rng, i: &mut Inst) {
 const CLASSES: &[&str] = &[
     "addsub_imm", "addsub_shift", "addsub_ext", "movewide", "logical_shift", "logical_imm",
     "ldst_uimm", "ldst_imm9", "ldst_regoff", "ldst_pair", "ldst_ordered", "ldst_literal",
-    "simd_ldst", "simd_dp", "b_bl", "b_cond", "cbz", "tbz", "br_blr_ret", "hint", "random",
+    "simd_ldst", "simd_dp", "b_bl", "b_cond", "cbz", "tbz", "br_blr_ret", "hint", "sve", "random", "scan",
 ];
 
 fn gen(rng: &mut Rng, cls: &str) -> Inst {
@@ -511,6 +516,23 @@ fn gen(rng: &mut Rng, cls: &str) -> Inst {
                 }
             }
         }
+        "sve" => {
+            // SVE prefetch hints (lifted as NOP) from their templates; now and then any word of the
+            // SVE group (0010), where the lifter also accepts some ADD/SUB/MOV forms on Z registers
+            let w = rng.next() as u32;
+            let (msz, pg, prfop) = (rng.below(4) as u32, rng.below(8) as u32, rng.below(16) as u32);
+            let tail = (pg << 10) | (rn << 5) | (((prfop >> 3) & 1) << 3) | (prfop & 7) | ((rng.chance(1, 16) as u32) << 4);
+            i.word = match rng.below(9) {
+                0 => (0b1000010 << 25) | (0b111 << 22) | ((rng.below(64) as u32) << 16) | (msz << 13) | tail,
+                1 => (0b1000010 << 25) | (msz << 23) | (rm << 16) | (0b110 << 13) | tail,
+                2 => (0b1000010 << 25) | ((rng.below(2) as u32) << 22) | (1 << 21) | (rm << 16) | (msz << 13) | tail,
+                3 => (0b1000010 << 25) | (msz << 23) | (rm << 16) | (0b111 << 13) | tail,
+                4 => (0b1100010 << 25) | ((rng.below(2) as u32) << 22) | (1 << 21) | (rm << 16) | (msz << 13) | tail,
+                5 => (0b1100010 << 25) | (0b11 << 21) | (rm << 16) | (1 << 15) | (msz << 13) | tail,
+                6 => (0b1100010 << 25) | (msz << 23) | (rm << 16) | (0b111 << 13) | tail,
+                _ => (w & !(0b1111 << 25)) | (0b0010 << 25),
+            };
+        }
         "ldst_pair" => gen_pair(rng, &mut i, 0, rd, rn, rm),
         "ldst_ordered" => {
             let size = rng.below(4) as u32;
@@ -540,17 +562,22 @@ fn gen(rng: &mut Rng, cls: &str) -> Inst {
             }
         }
         "ldst_literal" => {
+            // opc 011 V 00 imm19 Rt : LDR (literal) W/X, LDRSW, PRFM; SIMD&FP S/D/Q
             let (opc, v) = (rng.below(4) as u32, rng.chance(1, 4) as u32);
-            let imm19 = pick_u32(rng, &[0, 1, 2, 0x7ffff, 0x40000], 19);
+            let imm19 = pick_u32(rng, &[0, 1, 2, 0x7ffff, 0x40000, 0x3ffff, 0x100, 0x7ff00], 19);
             if v == 1 {
                 with_q(rng, &mut i);
             }
-            // put the window where the literal points
+            let bytes: u64 = if v == 1 { 4 << opc.min(2) } else if opc == 1 { 8 } else { 4 };
             let off = ((((imm19 << 13) as i32) >> 13) as i64 as u64).wrapping_mul(4);
-            i.addr = 0x40_0000;
+            i.addr = *rng.pick(&[0x40_0000u64, 0xffff_fff8, 0x0000_aaaa_bbbb_c000]);
             let t = i.addr.wrapping_add(off);
-            // the window goes where the literal points unless that is too close to the code
-            i.mbase = if t.wrapping_sub(i.addr.wrapping_sub(512)) < 1024 { 0x8000 } else { t.wrapping_sub(if rng.bool() { 0 } else { 16 }) };
+            // the window goes where the literal points, unless that is the code itself
+            if t.wrapping_sub(i.addr.wrapping_sub(512)) >= 1024 {
+                let room = WIN as u64 - bytes;
+                let k = match rng.below(4) { 0 => 0, 1 => room, _ => rng.below(room + 1) };
+                i.mbase = t.wrapping_sub(k);
+            }
             i.word = (opc << 30) | (0b011 << 27) | (v << 26) | (imm19 << 5) | rd;
         }
         "b_bl" => {
@@ -643,9 +670,10 @@ fn gen(rng: &mut Rng, cls: &str) -> Inst {
             }
         }
         _ => {
-            // random words inside the major encoding groups the module looks at
+            // random words inside the major encoding groups the module looks at ("scan": anywhere)
             let w = rng.next() as u32;
-            i.word = match rng.below(5) {
+            i.word = match if cls == "scan" { 9 } else { rng.below(5) } {
+                9 => w,
                 4 => (w & !(0b111 << 25)) | (0b111 << 25),              // scalar FP and Advanced SIMD
                 0 => (w & !(0b111 << 26)) | (0b100 << 26),              // data processing - immediate
                 1 => (w & !(0b111 << 26)) | (0b101 << 26),              // branches, system
